@@ -505,11 +505,51 @@ class Model(bfs.Model):
             if bitsfn(fobj) != before_f or first != second:
                 acc.fail('frozen_result_shared', case, f'history={history}\n mutating objects derived from {name} (thaw / to_angle / axes / ...) changed {name} or what it hands out next: '
                          f'{first} -> {second}', op=lastop, reg=name)
+        # (2c) methods of the MUTABLE types documented as returning a copy / new value hand out a new object, also when nothing
+        # had to change (already inside the bounds, already unit length, zero rotation, factor 1 ...)
+        V0, A0, M0 = st.V, st.A, st.M
+        big = 1e300
+        fresh = {
+            'V.clamped(in bounds)': lambda: V0.clamped(Vec(-big, -big, -big), Vec(big, big, big)),
+            'V.clamped(mins=)': lambda: V0.clamped(mins=Vec(-big, -big, -big)),
+            'V.copy()': V0.copy, 'V + 0': lambda: V0 + Vec(0, 0, 0), 'V * 1': lambda: V0 * 1.0, 'V @ identity': lambda: V0 @ Matrix(),
+            '+V': lambda: +V0, 'V.with_axes': lambda: V0.with_axes('x', V0.x),
+            'V.lerp-free round()': lambda: round(V0, 6), 'abs(V) or V': lambda: abs(V0),
+            'A.copy()': A0.copy, 'A * 1': lambda: A0 * 1.0, 'A @ zero': lambda: A0 @ Angle(0, 0, 0), 'A @ identity': lambda: A0 @ Matrix(),
+            'M.copy()': M0.copy, 'M @ identity': lambda: M0 @ Matrix(), 'M.transpose()': M0.transpose, 'M.inverse()': M0.inverse,
+        }
+        for label, fn in fresh.items():
+            try:
+                r = fn()
+            except Exception as exc:  # noqa: BLE001
+                acc.fail('op_raised', case, f'history={history}\n {label} raised {type(exc).__name__}: {exc}', op=lastop)
+                continue
+            if r is V0 or r is A0 or r is M0:
+                acc.fail('copy_is_source', case, f'history={history}\n {label} returned the object itself, not a new value', op=lastop, method=label.split('(')[0])
         # (3) canonical text
         for name, obj, comps in (('A', st.A, abits), ('FA', st.FA, abits), ('V', st.V, vbits), ('FV', st.FV, vbits)):
             text = str(obj)
             # the other documented string forms agree with str(): join(' '), format() with an empty spec, f-strings; join(', ') joins the same numbers
             forms = {'join': obj.join(' '), 'format': format(obj, ''), 'fstring': f'{obj}', 'join_comma': obj.join(', ').replace(', ', ' ')}
+            # explicit format specs: every component printed with the spec, to the precision the spec asks for
+            for spec, tol in (('.3f', 5e-4), ('.0f', 0.5), ('.1f', 0.05), ('g', None), ('.8f', 5e-9)):
+                ftext = format(obj, spec)
+                fparts = ftext.split(' ')
+                ok = len(fparts) == 3
+                if ok:
+                    for fp, x in zip(fparts, list(obj)):
+                        try:
+                            val = float(fp)
+                        except ValueError:
+                            ok = False
+                            break
+                        lim = (tol if tol is not None else 5e-6 * max(1.0, abs(x))) + abs(x) * 1e-15
+                        if abs(val - x) > lim:
+                            ok = False
+                            break
+                if not ok:
+                    acc.fail('text_format_spec', case, f'history={history}\n format({name}, {spec!r}) = {ftext!r} for {list(obj)!r}', op=lastop, spec=spec)
+                    break
             odd = [(k, v) for k, v in forms.items() if v != text]
             if odd:
                 acc.fail('text_forms_disagree', case, f'history={history}\n str({name}) = {text!r} but {odd[0][0]} gives {odd[0][1]!r}', op=lastop)
